@@ -191,7 +191,7 @@ def same_origin(pr, a, b_):
 # ------------------------------------------------------------------ site collection
 
 class Site:
-    __slots__ = ("body", "bb", "kind", "key", "where", "call", "term", "detail")
+    __slots__ = ("body", "bb", "kind", "key", "where", "call", "term", "detail", "_cap_depth")
 
     def __init__(self, body, bb, kind, where, call=None, term=None):
         self.body, self.bb, self.kind, self.where, self.call, self.term = body, bb, kind, where, call, term
@@ -999,6 +999,26 @@ def D_const_index(s, ctx):
     return None
 
 
+class _ArgView:
+    """A call seen as if its k-th argument were argument 0 (to judge a value handed to a helper as a capacity)."""
+
+    def __init__(self, c, k):
+        self._c = c
+        self.args = [c.args[k]] + [a for i, a in enumerate(c.args) if i != k]
+        self.bb = c.bb
+        self.name = c.name
+        self.full = c.full
+        self.callee = c.callee
+        self.dest = c.dest
+        self.target = c.target
+        self.loc = c.loc
+        self.gargs = c.gargs
+        self.t = c.t
+
+    def where(self):
+        return self._c.where()
+
+
 def D_capacity(s, ctx):
     """with_capacity(x): x is bounded by the size of an existing collection or a small constant."""
     if s.kind != "call:with_capacity":
@@ -1018,6 +1038,32 @@ def D_capacity(s, ctx):
         fl = {tuple(p for p in a[2] if p != "deref") for a in fa}
         if all(len(x) == 1 and int(x[0][1:]) in hf and hf[int(x[0][1:])][0] for x in fl):
             return "capacity is a field that only ever holds a constant or min(.., constant) (a bounded size hint)"
+    # a plain parameter of a local helper: every caller hands over an acceptable capacity
+    pa = [a for a in at if a[0] not in ("via", "op")]
+    if pa and all(a[0] == "arg" and not a[2] for a in pa) and getattr(s, "_cap_depth", 0) < 2:
+        bodies = getattr(ctx.lib, "raw_bodies", None) or ctx.lib.bodies
+        callers = [(ob, cc) for ob in bodies.values() for cc in ob.calls if (cc.name or "") == b.name]
+        if callers:
+            reasons = []
+            for ob, cc in callers:
+                okc = True
+                for a in pa:
+                    k = a[1] - 1
+                    if k >= len(cc.args):
+                        okc = False
+                        break
+                    fake = Site(ob, cc.bb, "call:with_capacity", cc.where(), call=_ArgView(cc, k))
+                    fake._cap_depth = getattr(s, "_cap_depth", 0) + 1
+                    why = D_capacity(fake, ctx)
+                    if not why:
+                        okc = False
+                        break
+                    reasons.append(why)
+                if not okc:
+                    reasons = None
+                    break
+            if reasons:
+                return "a parameter; every caller passes: %s" % reasons[0]
     sized = ("::len", "::capacity", "::count", "::min")
 
     def is_size_call(a):
